@@ -556,6 +556,7 @@ struct imbh_keys {
         uint64_t des_ks[3][IMB_DES_KEY_SCHED_SIZE / 8] AL(16);
         const void *ks_ptr[3];
         uint32_t k1_exp[15 * 4] AL(16); /* XCBC k1 / CMAC expanded key */
+        uint32_t dust[15 * 4] AL(16);   /* unused decrypt schedule of the CMAC key */
         uint8_t k2[16] AL(16);          /* XCBC k2 / CMAC subkey 1 */
         uint8_t k3[16] AL(16);          /* XCBC k3 / CMAC subkey 2 */
         uint8_t ipad[IMB_SHA_512_BLOCK_SIZE] AL(16);
@@ -726,11 +727,11 @@ prep_auth_keys(IMB_MGR *mgr, const imbh_item *it, struct imbh_keys *k)
                 break;
         case IMB_AUTH_AES_CMAC:
         case IMB_AUTH_AES_CMAC_BITLEN:
-                IMB_AES_KEYEXP_128(mgr, key, k->k1_exp, k->dec);
+                IMB_AES_KEYEXP_128(mgr, key, k->k1_exp, k->dust);
                 IMB_AES_CMAC_SUBKEY_GEN_128(mgr, k->k1_exp, k->k2, k->k3);
                 break;
         case IMB_AUTH_AES_CMAC_256:
-                IMB_AES_KEYEXP_256(mgr, key, k->k1_exp, k->dec);
+                IMB_AES_KEYEXP_256(mgr, key, k->k1_exp, k->dust);
                 IMB_AES_CMAC_SUBKEY_GEN_256(mgr, k->k1_exp, k->k2, k->k3);
                 break;
         case IMB_AUTH_AES_GMAC_128:
